@@ -75,6 +75,7 @@ void cmb_process_initialize(struct cmb_process *pp,
     cmi_slist_initialize(&pp->awaits);
     cmi_slist_initialize(&pp->waiters);
     cmi_slist_initialize(&pp->resources);
+    pp->hold_wakeup = UINT64_C(0);
 }
 
 /*
@@ -118,6 +119,7 @@ static void start_event(void *vp, void *arg)
 
     struct cmb_process *pp = (struct cmb_process *)vp;
     struct cmi_coroutine *cp = (struct cmi_coroutine *)pp;
+    pp->hold_wakeup = UINT64_C(0);
     cmi_coroutine_start(cp, arg);
 }
 
@@ -276,10 +278,14 @@ int64_t cmb_process_hold(const double dur)
     cmb_assert_debug(pp != NULL);
     const uint64_t handle = cmb_process_timer_add(pp, dur, CMB_PROCESS_SUCCESS);
 
+    /* It is ours, not one of the timers cmb_process_timers_clear() is for */
+    pp->hold_wakeup = handle;
+
     /* Yield to the dispatcher and collect the return signal value when back */
     const int64_t sig = (int64_t)cmi_coroutine_yield(NULL);
 
     /* Back here again, possibly much later. */
+    pp->hold_wakeup = UINT64_C(0);
     if (sig != CMB_PROCESS_SUCCESS) {
         /* Whatever woke us up was not the scheduled wakeup call, cancel it */
         cmb_logger_info(stdout, "Woken up by signal %" PRIi64, sig);
@@ -369,15 +375,17 @@ void cmb_process_timers_clear(struct cmb_process *pp)
                                                       struct cmi_process_awaitable,
                                                       listhead);
 
-        if (pa->type == CMI_PROCESS_AWAITABLE_TIME) {
-            /* Recycle the tag */
+        if ((pa->type == CMI_PROCESS_AWAITABLE_TIME)
+            && (pa->handle != pp->hold_wakeup)) {
+            /* A timer, and not the wakeup call of a hold in progress. Recycle the tag */
+            const uint64_t handle = pa->handle;
             cmi_slist_pop(awaits);
             cmi_mempool_free(&cmi_process_awaitabletags, pa);
 
             /* Cancel the corresponding wakeup event */
-            cmb_assert_debug(pa->handle != UINT64_C(0));
-            cmb_logger_info(stdout, "Cancels timeout event %" PRIu64, pa->handle);
-            const bool found = cmb_event_cancel(pa->handle);
+            cmb_assert_debug(handle != UINT64_C(0));
+            cmb_logger_info(stdout, "Cancels timeout event %" PRIu64, handle);
+            const bool found = cmb_event_cancel(handle);
             cmb_assert_debug(found);
         }
         else {
